@@ -123,7 +123,7 @@ def check_json(rec, lines, offs, term, msgs, with_ctx):
 
 
 def line_part(chk, tier):
-    res = vlib.tlc("regex/MCPrinter", "C09_quick", workers=12, timeout=3600)
+    res = vlib.tlc("regex/MCPrinter", "C09_quick" if tier == "quick" else "C09_deep", workers=12, timeout=7200, xmx="16g")
     if res.rc != 0:
         raise vlib.ToolError("TLC failed:\n" + res.tail(40))
     chk.add_tlc(res)
@@ -239,7 +239,7 @@ def line_part(chk, tier):
 
 def ml_part(chk, tier):
     """-U --vimgrep -b: one record per match, located at the line holding the match's start."""
-    res = vlib.tlc("regex/MCGrepML", "C09_ml", workers=12, timeout=3600)
+    res = vlib.tlc("regex/MCGrepML", "C09_ml" if tier == "quick" else "C09_ml_deep", workers=12, timeout=7200, xmx="16g")
     if res.rc != 0:
         raise vlib.ToolError("TLC failed on C09_ml:\n" + res.tail(40))
     chk.add_tlc(res)
